@@ -515,6 +515,31 @@ class Item:
                                   "functions str_pred_*" % n_total})
         return self
 
+    SORTS = ("sort_by_key", "sort_by", "sort_unstable_by_key", "sort_unstable_by", "sort_by_cached_key", "sort", "sort_unstable", "reverse",
+             "dedup", "dedup_by_key", "retain")
+
+    def shim_reorderings(self):
+        """R5, generic: `recv.sort_by_key(..)`, `.sort()`, `.reverse()`, `.dedup()`, `.retain(..)` ... on a vector become
+        `verif_reorder(&mut recv)`: an external function that may return ANY vector (no contract).  An over-approximation that is
+        sound for proofs and keeps text that starts re-ordering / filtering a vector inside the verifier's dialect."""
+        src = self.text
+        n_total = 0
+        for name in self.SORTS:
+            while True:
+                m = re.search(r"\b([A-Za-z_][A-Za-z0-9_]*(?:\.[A-Za-z_][A-Za-z0-9_]*)*)\.%s\(" % name, src)
+                if not m:
+                    break
+                toks = code_tokens(src[m.end() - 1:])
+                close = match_brace(src[m.end() - 1:], toks, 0, "(", ")")
+                end = m.end() - 1 + toks[close][2]
+                src = src[:m.start()] + "verif_reorder(&mut %s)" % m.group(1) + src[end:]
+                n_total += 1
+        self.text = src
+        if n_total:
+            self.rewrites.append({"rule": "R5", "what": "%d in-place re-ordering / filtering call(s) on a vector replaced by verif_reorder() "
+                                  "(result unconstrained)" % n_total})
+        return self
+
     def insert_after(self, anchor, text, why):
         """Insert proof text (ghost code only) after the first occurrence of an anchor statement."""
         n = self.text.count(anchor)
@@ -525,11 +550,13 @@ class Item:
         self.rewrites.append({"rule": "proof", "after": anchor, "what": why})
         return self
 
-    def insert_before(self, anchor, text, why):
+    def insert_before(self, anchor, text, why, nth=None):
         n = self.text.count(anchor)
-        if n != 1:
+        if (nth is None and n != 1) or (nth is not None and n < nth):
             raise ExtractionError("%s: proof anchor %r occurs %d times" % (self.name, anchor, n))
-        p = self.text.index(anchor)
+        p = -1
+        for _ in range(nth or 1):
+            p = self.text.index(anchor, p + 1)
         self.text = self.text[:p] + text + "\n" + self.text[p:]
         self.rewrites.append({"rule": "proof", "before": anchor, "what": why})
         return self
